@@ -209,6 +209,9 @@ def register_tasks(app, max_retries: int = 0):  # type: ignore[no-untyped-def]
 # the task body
 # --------------------------------------------------------------------------------------------
 
+_SPELL = [0]
+
+
 def opcode(op: Any) -> str:
     return op if isinstance(op, str) else f"s{op[1]}"
 
@@ -224,7 +227,16 @@ def _do(app, t, app_id: str, op: Any) -> str:  # type: ignore[no-untyped-def]
         return "t:" + t.wf.utc_now().isoformat()
     if isinstance(op, (list, tuple)) and op[0] == "s":
         child = app.get_task(TaskId("harness.tasks", "wf_child"))
-        inv = t.wf.execute_task(child, app_id, op[1], list(op[2]))
+        # the same call, spelled positionally, by keyword, or with its defaulted parameter written out - the spelling changes from one
+        # launch to the next (a body edited between an execution and its replay; two call sites of one sub-task): one call, one record
+        _SPELL[0] += 1
+        how = _SPELL[0] % 3
+        if how == 0:
+            inv = t.wf.execute_task(child, app_id, op[1], list(op[2]))
+        elif how == 1:
+            inv = t.wf.execute_task(child, app_id=app_id, tag=op[1], script=list(op[2]))
+        else:
+            inv = t.wf.execute_task(child, app_id, op[1], script=list(op[2]), note="-")
         return "i:" + str(inv.invocation_id)
     raise ValueError(f"bad op {op!r}")
 
